@@ -268,6 +268,53 @@ func (e *verifEnv) deliver(m *GMessage) bool {
 	return true
 }
 
+// replayUnderOtherKey: the adversary takes a member's genuine message in its
+// wire (partial) form, lets the participant see it, and then presents the same
+// bytes announced under the key of another chain, completing it with that
+// chain.  It must be refused at one of the two validation stages; if it gets
+// through it is delivered (and the authenticity monitor A4 fires).
+func (e *verifEnv) replayUnderOtherKey(m *GMessage, other *ECChain) bool {
+	ctx := context.Background()
+	strip := func() *PartialGMessage {
+		c := *m
+		pm := &PartialGMessage{GMessage: &c, VoteValueKey: m.Vote.Value.Key()}
+		pm.Vote.Value = &ECChain{}
+		if m.Justification != nil && !m.Justification.Vote.Value.IsZero() {
+			j := *m.Justification
+			j.Vote.Value = &ECChain{}
+			pm.Justification = &j
+		}
+		return pm
+	}
+	if _, err := e.p.PartiallyValidateMessage(ctx, strip()); err != nil {
+		return false
+	}
+	replay := strip()
+	replay.VoteValueKey = other.Key()
+	pv, err := e.p.PartiallyValidateMessage(ctx, replay)
+	if err != nil {
+		return false
+	}
+	pm := pv.PartialMessage()
+	pm.Vote.Value = other
+	if pm.Justification != nil && pm.Justification.Vote.Value.IsZero() && m.Justification != nil && !m.Justification.Vote.Value.IsZero() {
+		pm.Justification.Vote.Value = other
+	}
+	vm, err := e.p.FullyValidateMessage(ctx, pv)
+	if err != nil {
+		return false
+	}
+	g := vm.Message()
+	for idx := range e.votes {
+		if idx != verifByzIdx && idx < len(e.c.PowerTable.Entries) && e.c.PowerTable.Entries[idx].ID == g.Sender {
+			sym.Assert(e.voted(idx, g.Vote.Round, g.Vote.Phase, g.Vote.Value), "A4: a message accepted in the name of an honest member was signed by that member")
+		}
+	}
+	e.stepErr = e.p.ReceiveMessage(ctx, vm)
+	e.monitor()
+	return true
+}
+
 func isLateBinding(err error) bool {
 	return errors.Is(err, ErrValidationWrongBase) || errors.Is(err, ErrValidationWrongSupplement)
 }
